@@ -329,6 +329,46 @@ func runC08(t *testing.T, tier string) int {
 		rejectedForStore = append(rejectedForStore, blank)
 	}
 
+	// (ii-c) size: the grammar bounds neither the length of an AND / OR chain nor the
+	// nesting depth, so every chain length up to N and every depth up to D is a
+	// sentence (plain, inside a group, under NOT, and mixed with the other operator)
+	chainN, depthD := 160, 40
+	if tier == "thorough" {
+		chainN, depthD = 1200, 120
+	}
+	var sized []string
+	for _, op := range []string{" AND ", " OR "} {
+		other := " OR "
+		if op == other {
+			other = " AND "
+		}
+		var b strings.Builder
+		b.WriteString("attributes:k0")
+		for n := 2; n <= chainN; n++ {
+			fmt.Fprintf(&b, "%sattributes.k%d=\"v\"", op, n%7)
+			c := b.String()
+			sized = append(sized, c)
+			if n%8 == 1 || n < 40 {
+				sized = append(sized, "NOT ("+c+")"+other+"hasPrefix(attributes.x,\"v\")", "("+c+")"+other+"("+c+")", "-("+c+")")
+			}
+		}
+	}
+	for d := 1; d <= depthD; d++ {
+		sized = append(sized,
+			strings.Repeat("(", d)+"attributes:x"+strings.Repeat(")", d),
+			strings.Repeat("NOT (", d)+"attributes:x"+strings.Repeat(")", d),
+			strings.Repeat("(attributes:x AND ", d)+"attributes:v"+strings.Repeat(")", d),
+			strings.Repeat("(attributes:x OR NOT ", d)+"attributes:v"+strings.Repeat(")", d))
+	}
+	var acceptedForStore []string
+	for i, str := range sized {
+		c08Compare(str, maps[:4], sink, st)
+		atomic.AddInt64(&mutated, 1)
+		if i%16 == 0 || len(str) > 3000 && i%4 == 0 {
+			acceptedForStore = append(acceptedForStore, str)
+		}
+	}
+
 	// (iii) all byte strings over a small alphabet: totality only, in worker
 	// subprocesses with a watchdog (a hang or stack overflow kills only the worker)
 	bytesTotal, bytesViol := c08Bytes(tier)
@@ -340,6 +380,11 @@ func runC08(t *testing.T, tier string) int {
 	sort.Strings(rejectedForStore)
 	stored, storeViol := c08NeverStored(t, rejectedForStore, tier)
 	for _, v := range storeViol {
+		sink.add(v)
+	}
+	// ... and sentences are accepted by both call sites and stored as given
+	acceptedSent, accViol := c08AcceptedStored(t, acceptedForStore)
+	for _, v := range accViol {
 		sink.add(v)
 	}
 
@@ -361,6 +406,10 @@ func runC08(t *testing.T, tier string) int {
 		"roundtrips":                st.roundtrips,
 		"byte_strings":              bytesTotal,
 		"rejected_strings_sent_to_create_and_update": stored,
+		"sized_sentences":                            len(sized),
+		"max_chain_operands":                         chainN,
+		"max_nesting_depth":                          depthD,
+		"sentences_sent_to_create_and_update":        acceptedSent,
 		"exhaustive": true,
 	}
 	ev := report.Evidence{PropertyID: "C08", Tier: tier, Seed: report.Seed(), Level: "exploration", Coverage: cov,
@@ -542,6 +591,55 @@ func c08NeverStored(t *testing.T, rejected []string, tier string) (int, []report
 					viols = append(viols, report.Viol{Property: "C08", Check: "C08/store", Rule: "invalid-filter-stored", Text: fmt.Sprintf("tables changed although every request up to %q was rejected:\n%s", s, d), Trace: []string{s}})
 					before = after
 				}
+			}
+			if len(viols) > 20 {
+				break
+			}
+		}
+	})
+	return n, viols
+}
+
+// c08AcceptedStored sends sentences of the grammar through CreateSubscription and
+// UpdateSubscription(filter): both must accept them and store them as given.
+func c08AcceptedStored(t *testing.T, accepted []string) (int, []report.Viol) {
+	var viols []report.Viol
+	n := 0
+	synctest.Test(t, func(t *testing.T) {
+		w, err := world.Open()
+		if err != nil {
+			t.Fatal(err)
+		}
+		defer w.Close()
+		w.SeqTick = false
+		ctx := context.Background()
+		topic := "projects/p/topics/t"
+		if _, err := w.Pub.CreateTopic(ctx, &pubsubpb.Topic{Name: topic}); err != nil {
+			t.Fatal(err)
+		}
+		keep := "projects/p/subscriptions/keep"
+		if _, err := w.Sub.CreateSubscription(ctx, &pubsubpb.Subscription{Name: keep, Topic: topic, Filter: "attributes:x"}); err != nil {
+			t.Fatal(err)
+		}
+		for i, s := range accepted {
+			if r := filt.Recognise(s); !r.Accept || r.DontCare {
+				continue
+			}
+			name := fmt.Sprintf("projects/p/subscriptions/a%d", i)
+			got, err := w.Sub.CreateSubscription(ctx, &pubsubpb.Subscription{Name: name, Topic: topic, Filter: s})
+			n++
+			if err != nil {
+				viols = append(viols, report.Viol{Property: "C08", Check: "C08/store", Rule: "sentence-rejected", Text: fmt.Sprintf("CreateSubscription rejected a sentence of %d bytes: %v", len(s), err), Trace: []string{s}})
+			} else {
+				if got.Filter != s {
+					viols = append(viols, report.Viol{Property: "C08", Check: "C08/store", Rule: "sentence-rejected", Text: fmt.Sprintf("CreateSubscription stored %q for the sentence given", got.Filter), Trace: []string{s}})
+				}
+				w.Sub.DeleteSubscription(ctx, &pubsubpb.DeleteSubscriptionRequest{Subscription: name})
+			}
+			_, err = w.Sub.UpdateSubscription(ctx, &pubsubpb.UpdateSubscriptionRequest{Subscription: &pubsubpb.Subscription{Name: keep, Filter: s}, UpdateMask: &fieldmaskpb.FieldMask{Paths: []string{"filter"}}})
+			n++
+			if err != nil {
+				viols = append(viols, report.Viol{Property: "C08", Check: "C08/store", Rule: "sentence-rejected", Text: fmt.Sprintf("UpdateSubscription rejected a sentence of %d bytes: %v", len(s), err), Trace: []string{s}})
 			}
 			if len(viols) > 20 {
 				break
